@@ -141,6 +141,12 @@ func main() {
 	}
 	code := runProperty(*repo, *verif, *property, *tier, names, *goarch, seed, *noSelfval)
 	if *recordAnchors != "" {
+		// the inventory of the reference tree (canon.go) plus the looked-up anchors
+		if p, err := loadOnce(*repo, "", nil); err == nil {
+			for k, v := range p.inventory() {
+				anchorRecord[k] = v
+			}
+		}
 		b, _ := json.MarshalIndent(anchorRecord, "", " ")
 		os.WriteFile(*recordAnchors, b, 0o644)
 	}
